@@ -188,6 +188,21 @@ func Split(r *rand.Rand, c *cfg.Config, mode int) []cfg.File {
 	return files
 }
 
+// GlobLayout renders the configuration as four files in sibling directories whose names are prefixes of each other
+// (conf-x/, conf.d/, conf/, confx/), read through ONE pattern `conf*/part.yaml`. The merge order is the lexical order of the
+// cleaned paths (`-` < `.` < `/` < `x`), not the order in which the directories are listed; earlier fragments carry decoy
+// values that later ones override, so the order matters.
+func GlobLayout(r *rand.Rand, c *cfg.Config) ([]cfg.File, []string) {
+	names := []string{"conf-x/part.yaml", "conf.d/part.yaml", "conf/part.yaml", "confx/part.yaml"}
+	parts := SplitParts(r, c, len(names))
+	AddDecoys(r, parts)
+	files := make([]cfg.File, len(names))
+	for i := range names {
+		files[i] = cfg.File{Name: names[i], Content: parts[i].YAML()}
+	}
+	return files, []string{"conf*/part.yaml"}
+}
+
 // AddEmpties puts explicit empty collections (arguments: [], calls: [], tags: [], fields: {}) into
 // fragments LATER than the one holding the real content: "non-empty arguments replace", appended
 // lists and united mappings must not be affected by them.
